@@ -96,9 +96,10 @@ def _pipeline(case):
         return viols, 1
     # ---------------- reference
     S = refspline.RefSpace(BSplines(make_knots(np.asarray(brs.breaks, dtype=float), 3, False), 3, False, False))
-    n0 = lambda r: init.n0(r, c.CN0, c.kN0, c.deltaRN0, c.rp)                      # noqa
-    Te = lambda r: init.Te(r, c.CTe, c.kTe, c.deltaRTe, c.rp)                      # noqa
-    g_ = lambda r: init.n0deriv_normalised(r, c.kN0, c.rp, c.deltaRN0)              # noqa
+    # profiles of the reference are coded independently of the library (pgv.ops)
+    n0 = lambda r: ops.n0_ref(c, r)                      # noqa
+    Te = lambda r: ops.te_ref(c, r)                      # noqa
+    g_ = lambda r: ops.dlogn0_ref(c, r)                  # noqa
     pts, wts = leggauss(7 // 2 + 1)
     br = np.asarray(brs.breaks, dtype=float)
     nb = S.nc
